@@ -224,6 +224,20 @@ def validate(module, cfg, events_path, workdir, shards=None, timeout=3000):
         cur.append(ln)
     if cur:
         groups.append(cur)
+    if shards == "by_scenario":
+        # cross-configuration comparison: all events of one scenario id (under every configuration) go to one shard
+        by, order = {}, []
+        for g in groups:
+            try:
+                k = json.loads(g[0]).get("sc")
+            except ValueError:
+                k = None
+            if k not in by:
+                by[k] = []
+                order.append(k)
+            by[k].extend(g)
+        groups = [by[k] for k in order]
+        shards = None
     n = shards or max(1, min(NCPU - 3, len(lines) // 1500 + 1))
     buckets = [[] for _ in range(n)]
     sizes = [0] * n
